@@ -82,6 +82,11 @@ def run(m, rep, tier):
                     continue
                 acs = alloc_calls(f)
                 pv = Prover(f)
+                from .util import swap_coverage
+                cov = swap_coverage(m, f)
+                if cov is not None and cov[2] and not cov[3] and not cov[4]:
+                    v2.ok(site, 'part of a complete exchange of two vectors: base and capacity travel together (V8)', s.loc())
+                    continue
                 if acs and any(nonnull_at(f, pv, aliases(f, c.ref), s) for c in acs):
                     v2.ok(site, 'in the success region of the allocation', s.loc())
                 else:
@@ -234,6 +239,13 @@ def check_scratch(m, rule):
                 caps = [s for s in f.all_insts() if s.op == 'store' and vec_field(resolve_addr(f, s.o[1])) == 'cap' and const_int(s.o[0]) is None]
                 ok = False
                 why = 'the allocation size is not (request + 1) * element size'
+                # the size may be a merge (a helper returning 0 for "not representable"): judge the non-zero alternatives
+                from ..treewalk import _leaves
+                alts = [f.get(x) for x in _leaves(f, c.o[1]) if const_int(x) != 0]
+                sizes = [x for x in alts if x is not None]
+                if len(sizes) != 1 or len(sizes) != len(alts):
+                    sizes = [size] if size is not None else []
+                size = sizes[0] if sizes else None
                 if size is not None and size.op == 'mul':
                     for a, b in ((size.o[0], size.o[1]), (size.o[1], size.o[0])):
                         ai, bi = f.get(a), f.get(b)
